@@ -565,7 +565,8 @@ pub fn gen(rng: &mut Rng, thorough: bool, out: &mut Sink) {
     // ---- generated sources of each format (mostly valid, with boundary values)
     let n = if thorough { 24000 } else { 400 };
     for v in 0..n {
-        let (fmt, data) = match v % 4 {
+        let (fmt, data) = match v % 5 {
+            4 => ("tokenizers", crate::c17::hf_zoo(rng, v / 5)),
             0 => ("tokenizers", crate::c17::hf_json(rng, v / 4)),
             1 => ("sentencepiece", crate::c17::sp_model(rng, v / 4)),
             2 => ("tekken", crate::c17::tekken_json(rng, v / 4)),
